@@ -92,10 +92,18 @@ def uri_scope(uri, scope):
     return uri
 
 
-def run_flow(grant, generator, supported, client_scope, requested, original, placement="form"):
+def run_flow(grant, generator, supported, client_scope, requested, original, placement="form", shared=None):
+    """shared: a (store, server) pair that lives across requests; the clients' allowed scope is then CHANGED to client_scope through
+    the metadata document (a registration update on long-lived client objects) instead of building new clients"""
     global PLACEMENT
     PLACEMENT = placement
-    store, srv = build(supported, client_scope, generator)
+    if shared is None:
+        store, srv = build(supported, client_scope, generator)
+    else:
+        store, srv = shared
+        for c in store.clients.values():
+            c.update_metadata(scope=client_scope)
+        store.tokens[:] = []
     hdr = S.basic_header("c1", "sec")
     tok_uri0 = "https://as.example/token"
     tok_uri = uri_scope(tok_uri0, requested) if grant in ("password", "client_credentials", "refresh", "jwt_bearer") else tok_uri0
@@ -194,13 +202,17 @@ def run(ctx):
         placement = ["form", "query", "both"][i % 3] if ctx.tier == "quick" else None
         for pl in ([placement] if placement else ["form", "query", "both"]):
             check_cell(ctx, m, grant, gen, sup, cs, req, orig, pl)
+    run_histories(ctx, m)
 
 
-def check_cell(ctx, m, grant, gen, sup, cs, req, orig, placement):
-        got = run_flow(grant, gen, sup, cs, req, orig, placement)
+def check_cell(ctx, m, grant, gen, sup, cs, req, orig, placement, shared=None):
+        got = run_flow(grant, gen, sup, cs, req, orig, placement, shared)
         a = {"grant": grant, "generator": gen, "supported": sup or [], "client_scope": cs, "requested": req, "original": orig}
         mod = m.call("issue", a)
         case = dict(a, supported=sup, placement=placement)
+        if shared is not None:
+            case["history"] = list(shared[0].history)
+            shared[0].history.append([grant, cs, req])
         ctx.case(case, (grant, gen, json.dumps(sup), cs, req, orig, placement), "%s:%s:%s" % (grant, gen, got[0] if got[0] != "error" else got[1]))
         ctx.compare("issue", case, got, mod)
         # ---- the property, on the implementation's observable output
@@ -230,6 +242,22 @@ def check_cell(ctx, m, grant, gen, sup, cs, req, orig, placement):
         if grant == "refresh" and req and req.split() and not words(req) <= words(orig) and got != ["error", "invalid_scope"]:
             ctx.violation("C08:refresh:widening-not-refused", "a refresh request widening the scope was not refused",
                           dict(case, got=got))
+
+
+def run_histories(ctx, m):
+    """one server and one set of client objects across a history in which the clients' allowed scope is narrowed and widened
+    between requests: every answer follows the registration as it is NOW"""
+    rng = ctx.rng
+    for h in range(25 if ctx.tier == "quick" else 300):
+        gen = rng.choice(["bearer", "jwt9068"])
+        sup = rng.choice([None, ["a", "b", "c", "d"]])
+        shared = build(sup, "a b c d", gen)
+        shared[0].history = []
+        for step in range(rng.randint(3, 6)):
+            grant = rng.choice(["password", "client_credentials", "code", "implicit", "refresh", "device"])
+            cs = rng.choice(["a b c d", "a b", "a", "b c d", "", "d a"])
+            req = rng.choice(["a", "a b", "a b c d", "d", "b c", None])
+            check_cell(ctx, m, grant, gen, sup, cs, req, rng.choice(["a b", "a b c d"]) if grant == "refresh" else None, "form", shared)
 
 
 def run_case(ctx, case):
